@@ -65,6 +65,15 @@ def check_seq_end(ctx):
     f = ix.func(q)
     ctx.unit(f.module)
     found = False
+    # pairwise iteration zip(s, s[1:]) visits len(s) - 1 pairs: the last entry of the sequence is never processed
+    for loop in own_nodes(f.node):
+      if isinstance(loop, ast.For) and any(isinstance(n, ast.Call) and isinstance(n.func, ast.Attribute) and n.func.attr == "add_isd" for n in own_nodes(loop)):
+        for z in ast.walk(loop.iter):
+          if isinstance(z, ast.Call) and unparse(z.func) == "zip" and len(z.args) == 2 and isinstance(z.args[1], ast.Subscript) and isinstance(z.args[1].slice, ast.Slice) \
+              and unparse(z.args[1].value) == unparse(z.args[0]) and z.args[1].slice.lower is not None and z.args[1].slice.upper is None:
+            found = True
+            ctx.bad("SEQ-end", f"{q}|add_isd-interval", ctx.where(f.module, loop),
+                    f"`{short(loop.iter, 60)}` pairs every entry with its successor and therefore never visits the last entry of the sequence: the content of the last snapshot is not written")
     for loop in own_nodes(f.node):
       if not (isinstance(loop, ast.For) and isinstance(loop.iter, ast.Call) and isinstance(loop.iter.func, ast.Name)
               and loop.iter.func.id == "enumerate" and loop.iter.args and isinstance(loop.iter.args[0], ast.Name)):
